@@ -3251,16 +3251,19 @@ class Client:
                         with self._msgtime_mutex:
                             self._last_msg_out = time_func()
 
+                        disconnected_sock = self._sock
                         self._do_on_disconnect(
                             packet_from_broker=False,
                             v1_rc=MQTTErrorCode.MQTT_ERR_SUCCESS,
                         )
-                        self._sock_close()
-                        # Only change to disconnected if the disconnection was wanted
-                        # by the client (== state was disconnecting). If the broker disconnected
-                        # use unilaterally don't change the state and client may reconnect.
-                        if self._state == _ConnectionState.MQTT_CS_DISCONNECTING:
-                            self._state = _ConnectionState.MQTT_CS_DISCONNECTED
+                        if self._sock is disconnected_sock:
+                            self._sock_close()
+                            # Only change to disconnected if the disconnection was wanted
+                            # by the client (== state was disconnecting).
+                            if self._state == _ConnectionState.MQTT_CS_DISCONNECTING:
+                                self._state = _ConnectionState.MQTT_CS_DISCONNECTED
+                        # else: on_disconnect called reconnect(), which closed that socket and
+                        # opened a new one: leave the new connection alone
                         return MQTTErrorCode.MQTT_ERR_SUCCESS
 
                 else:
